@@ -21,7 +21,7 @@ CHECKS = {
                      "TZ=UTC is pinned for all lanes except the local-time lanes, which set TZ to a daylight-saving zone by POSIX rule and skip wall-clock times that zone cannot represent unambiguously"],
     ),
     "C02": dict(
-        claim="Translation validation by execution: each generated declaration is compiled with the real derive macro and run side by side with the reference model's schema interpreter on the same values (bytes and decoded values must agree). Held on the declarations and values reported in the evidence.",
+        claim="Translation validation by execution: each generated declaration is compiled with the real derive macro and run side by side with the reference model's schema interpreter on the same values (bytes and decoded values must agree). Declarations carry raw-identifier fields, every accepted spelling of Option, inert attributes (doc comments, lints, disabled cfg_attr) before, between and after the helper attributes, derived types in every value position; a hand-written chain of twelve records that all carry evolution headers is run on trees of up to 4 095 records. Held on the declarations and values reported in the evidence.",
         note="Trusted: the refmodel crate (encoder, strict decoder, canonicalisation) and the declaration generator's schema emission; declarations outside the generator's space (see DESIGN §9) are not covered.",
         technique='differential execution of macro-derived codecs against a schema interpreter',
         level="translation_validation",
@@ -77,7 +77,7 @@ CHECKS = {
         assumptions=["each non-zero-width element consumes at least one input byte, so len + 65536 sequence items bounds every legitimate decode"],
     ),
     "C06": dict(
-        claim="Fault enumeration over framing tamperings: for every tampered or raw input that the real decoder accepts, the strict reference decoder (explicit windows, exactly the leniencies of DESIGN 4.5) must accept it with the same value. Held on the accepted inputs counted per tamper class in the evidence; an input rejected by the library is never an alarm.",
+        claim="Fault enumeration over framing tamperings: for every tampered or raw input that the real decoder accepts, the strict reference decoder (explicit windows, exactly the leniencies of DESIGN 4.5) must accept it with the same value. Held on the accepted inputs counted per tamper class in the evidence; an input rejected by the library is never an alarm. Also run: declarations that remove and re-add a field name (hostile-only subjects), and lenient client readers (a hand-written field codec that survives a failing nested decode) on tampered data of the same / an older / a newer writer, where the fields lying in other chunks than the lenient one must be exactly what the format assigns (the lenient position itself is never compared).",
         note="Trusted: the strict reference decoder and its list of leniencies (DESIGN 4.5); inputs the model cannot judge are counted as model_gap and never as verdicts.",
         technique="differential acceptance monitor: real Ok(v) implies strict-reference Ok(v) over structure-aware tampering",
         level="fault_enumeration",
@@ -145,7 +145,7 @@ CHECKS = {
         coverage_extra={"exhaustive": lambda counters, tier: counters.get("exhaustive_bit_patterns", 0) == 2**32},
     ),
     "C12": dict(
-        claim="Held on N observed executions: for 24 element types and lengths 0..8, 16, 17, 32, 40, 63, 64, 127, 128 (8191/8192 thorough), element lists are written by every source container (Vec, slice, array, LinkedList, HashSet, BTreeSet, an iterator without exact size hint = real unknown-length writer, the reference unknown-length encoder) and read by every target container (Vec, array of matching length, LinkedList, HashSet, BTreeSet); pair lists against HashMap / BTreeMap; Vec<u8>, &[u8], [u8; N], Bytes among themselves. Ordered targets must reproduce the order written, sets the set of elements.",
+        claim="Held on N observed executions: for 24 element types and lengths 0..8, 16, 17, 32, 40, 63, 64, 127, 128 (8191/8192 thorough), element lists are written by every source container (Vec, slice, array, LinkedList, HashSet, BTreeSet, an iterator without exact size hint = real unknown-length writer, the reference unknown-length encoder) and read by every target container (Vec, array of matching length, LinkedList, HashSet, BTreeSet); pair lists against HashMap / BTreeMap; Vec<u8>, &[u8], [u8; N], Bytes among themselves. Ordered targets must reproduce the order written, sets the set of elements. Element types include those whose size in memory says nothing about their encoding: zero-sized but encoded (((),), [u64; 0], (PhantomData,)) and pointer-sized but empty on the wire (Box<()>, Rc<()>, Arc<PhantomData>).",
         note="Trusted: to_val of the containers; for hash containers the order written is taken from iterating the same instance.",
         technique="full source x target container matrix executed on generated element lists",
         level="exploration",
@@ -172,7 +172,7 @@ CHECKS = {
         floors={"any": {"transient_values_do_not_influence_bytes": 5000, "transient_fields_decoded_to_default": 5000, "transient_constructor_refused": 500, "made_transient_versions_encodable": 500, "made_transient_after_earlier_steps_encodable": 100, "transient_default_for_older_data": 500}},
     ),
     "C15": dict(
-        claim="Held on N observed executions: every generated value of every subject type is written to Vec<u8>, BytesMut, serialize_to_bytes, serialize_to_byte_vec and a user-defined recording output — identical bytes — and SizeCalculator reports exactly their number; 80 000 (2 000 000 thorough) ordinary and hostile primitive read sequences run on SliceInput, OwnedInput and DeserializationContext must agree result by result (value, error class, panic) and report end of input at the same point.",
+        claim="Held on N observed executions: every generated value of every subject type is written to Vec<u8>, BytesMut, serialize_to_bytes, serialize_to_byte_vec and a user-defined recording output — identical bytes — and SizeCalculator reports exactly their number; 80 000 (2 000 000 thorough) ordinary and hostile primitive read sequences run on SliceInput, OwnedInput and DeserializationContext must agree result by result (value, error class, panic) and report end of input at the same point. Totals beyond 2^32 bytes (up to 12 GiB, every single length small) are pushed through a size-calculating context and a counting user output.",
         note="Trusted: the recording output (10 lines).",
         technique="differential monitor across sinks and across input implementations",
         level="exploration",
